@@ -47,7 +47,7 @@ def has_nonempty(e, s):
     return False
 
 
-def prune_state(e, s, under, arrays=True):
+def prune_state(e, s, under, arrays=True, ceil=False):
     """The documented loss, computed independently of set_flat: below a pruning sequence every
     member all of whose flattened values are '' is dropped (trailing ones only for a non-pruning
     list nested below a pruning one, interior ones come back blank); pruning Arrays drop ''
@@ -57,11 +57,16 @@ def prune_state(e, s, under, arrays=True):
         return e
     if t in ("dict", "compound"):
         fields = {f["name"]: f for f in s["fields"]}
-        return {"dict": [[k, prune_state(v, fields[k], under, arrays)] for k, v in e["dict"]]}
+        return {"dict": [[k, prune_state(v, fields[k], under, arrays, ceil)] for k, v in e["dict"]]}
     if t == "list":
         ms = e["list"]
         if s["prune"]:
-            return {"list": [prune_state(m, s["member"], True, arrays) for m in ms if has_nonempty(m, s["member"])]}
+            keep = [m for m in ms if has_nonempty(m, s["member"])]
+            if ceil:
+                keep = keep[: s["max"]]        # maximum_set_flat_members: the first `max` surviving indexes
+            return {"list": [prune_state(m, s["member"], True, arrays, ceil) for m in keep]}
+        if ceil and not under:
+            ms = ms[: s["max"]]                # … or the indexes below `max`
         if under:
             last = -1
             for i, m in enumerate(ms):
@@ -69,9 +74,11 @@ def prune_state(e, s, under, arrays=True):
                     last = i
             out = []
             for m in ms[: last + 1]:
-                out.append(prune_state(m, s["member"], True, arrays) if has_nonempty(m, s["member"]) else blank_state(s["member"]))
+                out.append(prune_state(m, s["member"], True, arrays, ceil) if has_nonempty(m, s["member"]) else blank_state(s["member"]))
+            if ceil:
+                out = out[: s["max"]]          # slots run up to the last surviving index, capped by `max`
             return {"list": out}
-        return {"list": [prune_state(m, s["member"], False, arrays) for m in ms]}
+        return {"list": [prune_state(m, s["member"], False, arrays, ceil) for m in ms]}
     if t == "array":
         ms = e["array"]
         if (s["prune"] and arrays) or under:
@@ -107,6 +114,27 @@ def settle_state(e, s, kinds):
     if t == "array":
         return {"array": [settle_state(m, s["member"], kinds) for m in e["array"]]}
     return e
+
+
+def leaf_finding(types):
+    if types and types <= {"Time", "Date", "DateTime"}:
+        return "KF-C01-b"
+    if types and types <= {"Float"}:
+        return "KF-C01-c"
+    if types and types <= {"Joined"}:
+        return "KF-C01-f"
+    return None
+
+
+def over_ceiling(e, s):
+    """Does some List of the state hold more members than its maximum_set_flat_members?"""
+    t = s["t"]
+    if t in ("dict", "compound"):
+        fields = {f["name"]: f for f in s["fields"]}
+        return any(over_ceiling(v, fields[k]) for k, v in e["dict"])
+    if t == "list":
+        return len(e["list"]) > s["max"] or any(over_ceiling(m, s["member"]) for m in e["list"])
+    return False
 
 
 def order_normal(e, s):
@@ -227,7 +255,7 @@ class C01(Property):
     ]
     assumptions = [
         "SepSafe(sep, names): stronger than 'the separator does not occur in names' (overlaps are KF-C01-a)",
-        "maximum_set_flat_members is left at a value above every generated list length (the ceiling is C02's subject)",
+        "the theorems assume no List is longer than its maximum_set_flat_members (default 1024); longer lists are truncated by from_flat — recorded as KF-C01-g and exercised by 30% of the generated cases",
     ]
     rule = ("random schemas (Dict/SparseDict/List pruning and not/Array/MultiValue/JoinedString/DateYYYYMMDD/every scalar kind, depth<=4, "
             "hostile names) x native values (valid, unadaptable text, None, '', whitespace) x 21 separators incl. regex-special, multi-char, NUL; "
@@ -248,7 +276,9 @@ class C01(Property):
                         "kinds": kinds, "sep": "_", "value": {"d": [["b", {"s": "1"}], ["a", {"s": "2"}]]}}
         regex_sep = {"schema": {"t": "list", "name": "l", "opt": False, "prune": False, "max": 1024, "member": S("s")},
                      "kinds": kinds, "sep": "|", "value": [{"s": "a"}, {"s": ""}, {"s": "c"}]}
-        return [overlap, time_us, float_big, sparse_order, regex_sep]
+        ceiling = {"schema": {"t": "list", "name": "l", "opt": False, "prune": False, "max": 2, "member": S("s")},
+                   "kinds": kinds, "sep": "_", "value": [{"s": "a"}, {"s": "b"}, {"s": "c"}]}      # KF-C01-g
+        return [overlap, time_us, float_big, sparse_order, regex_sep, ceiling]
 
     def generate(self, rng, n, tier):
         for _ in range(n):
@@ -259,7 +289,8 @@ class C01(Property):
                 if schema["t"] in ("leaf", "joined") and rng.random() < 0.85:
                     kinds = []
                     schema = fl.gen_schema(rng, sep, rng.choice([2, 3, 3, 4]), kinds)
-            force_max(schema)
+            if rng.random() < 0.7:
+                force_max(schema)      # most cases keep the ceiling out of the way; the rest exercise KF-C01-g
             yield {"schema": schema, "kinds": kinds, "sep": sep, "value": fl.gen_value(rng, schema, kinds, hostile=0.12)}
 
     def _trip(self, case):
@@ -364,56 +395,59 @@ class C01(Property):
         uns = unsettled_leaves(el, schema, kinds, sep)
         s0 = fl.extract(el, schema)
         has_sparse = any(s["t"] == "dict" and s["mode"] != "dense" for s in fl.walk_schema(schema))
-        if uns and not has_sparse:
-            # KF-C01-b/c/f predict: the library behaves exactly like the documented round trip composed with
-            # each leaf's own set(text) — nothing else differs
-            types = {u[0] for u in uns}
-            if clause == "leaf-values-kept":
-                exp, obs = failure.get("expected"), failure.get("observed")
-                sub = {(u[3], u[4]): u[5] for u in uns}
-                predicted = Counter((k, sub.get((k, v), v)) for k, v in map(tuple, exp))
-                empt = {(u[3], u[5]) for u in uns if u[2] == ""}
-                predicted = Counter({kv: n for kv, n in predicted.items() if kv not in empt})
-                ok = predicted == Counter(map(tuple, obs))
-            elif clause in ("identical-flatten", "only-documented-pruning", "second-trip-stable"):
-                ok = False
-                for a1 in (True, False):
-                    s1 = prune_state(settle_state(s0, schema, kinds), schema, False, arrays=a1)
-                    if [list(p) for p in f1] != [list(p) for p in flatten_state(s1, schema, sep)]:
-                        continue
-                    if clause != "second-trip-stable":
-                        ok = True
-                        break
-                    for a2 in (True, False):
-                        s2 = prune_state(settle_state(s1, schema, kinds), schema, False, arrays=a2)
-                        if [list(p) for p in f2] == [list(p) for p in flatten_state(s2, schema, sep)]:
-                            ok = True
-                    if ok:
-                        break
-            else:
-                ok = False
-            if not ok:
+
+        # What the leaf-level findings (KF-C01-b/c/f: from_flat necessarily runs each leaf's own set(text))
+        # and the ceiling finding (KF-C01-g: Lists are cut at maximum_set_flat_members) PREDICT is one
+        # function on states: the documented round trip composed with both effects.
+        def trip(st, arrays):
+            return prune_state(settle_state(st, schema, kinds), schema, False, arrays=arrays, ceil=True)
+
+        def same(pairs, st):
+            return [list(p) for p in pairs] == [list(p) for p in flatten_state(st, schema, sep)]
+
+        if clause == "leaf-values-kept":
+            if not uns:
                 return None
-            if types <= {"Time", "Date", "DateTime"}:
-                return "KF-C01-b"
-            if types <= {"Float"}:
-                return "KF-C01-c"
-            if types <= {"Joined"}:
-                return "KF-C01-f"
+            exp, obs = failure.get("expected"), failure.get("observed")
+            sub = {(u[3], u[4]): u[5] for u in uns}
+            predicted = Counter((k, sub.get((k, v), v)) for k, v in map(tuple, exp))
+            empt = {(u[3], u[5]) for u in uns if u[2] == ""}
+            predicted = Counter({kv: n for kv, n in predicted.items() if kv not in empt})
+            if predicted != Counter(map(tuple, obs)):
+                return None
+            return leaf_finding({u[0] for u in uns})
+        if clause not in ("identical-flatten", "only-documented-pruning", "second-trip-stable"):
             return None
-        if uns:
-            s0 = settle_state(s0, schema, kinds)
-        if has_sparse and failure.get("clause") in ("identical-flatten", "only-documented-pruning"):
-            s0b = prune_state(s0, schema, False, arrays=False)
-            s0 = prune_state(s0, schema, False)
+        if not has_sparse:
+            for a1 in (True, False):
+                s1 = trip(s0, a1)
+                if not same(f1, s1):
+                    continue
+                chain = [s0, s1]
+                if clause == "second-trip-stable":
+                    s2 = next((trip(s1, a2) for a2 in (True, False) if same(f2, trip(s1, a2))), None)
+                    if s2 is None:
+                        continue
+                # which recorded effect is at work (in the first state, or — for the second trip — in the rebuilt one)
+                for st in chain:
+                    if over_ceiling(st, schema):
+                        return "KF-C01-g"
+                types = {u[0] for u in uns} | {u[0] for u in unsettled_leaves(el1, schema, kinds, sep)}
+                return leaf_finding(types) if types else None
+            return None
+        # SparseDicts: member order (d) and blank members (e), on top of the effects above
+        if clause in ("identical-flatten", "only-documented-pruning"):
             s1 = fl.extract(el1, schema)
-            if Counter(flatten_state(s0, schema, sep)) == Counter(f1) or Counter(flatten_state(s0b, schema, sep)) == Counter(f1):
-                return "KF-C01-d"
-            n0 = flatten_state(strip_blank_sparse(s0, schema), schema, sep)
-            n1 = flatten_state(strip_blank_sparse(s1, schema), schema, sep)
-            n0b = flatten_state(strip_blank_sparse(s0b, schema), schema, sep)
-            if Counter(n0) == Counter(n1) or Counter(n0b) == Counter(n1):
-                return "KF-C01-e"
+            for a1 in (True, False):
+                p0 = trip(s0, a1)
+                if Counter(flatten_state(p0, schema, sep)) == Counter(f1):
+                    return "KF-C01-d"
+            for a1 in (True, False):
+                p0 = trip(s0, a1)
+                n0 = flatten_state(strip_blank_sparse(p0, schema), schema, sep)
+                n1 = flatten_state(strip_blank_sparse(s1, schema), schema, sep)
+                if Counter(n0) == Counter(n1):
+                    return "KF-C01-e"
         return None
 
     def nontrivial(self, case, obs):
